@@ -16,6 +16,7 @@ import shutil
 import subprocess
 from concurrent.futures import ThreadPoolExecutor
 
+from harness.c17.util import report
 from harness.vlib.core import Ctx, PY, ToolFailure, repo_env
 from harness.c17.resolution import CODES, doc_oracle, real_clone, show_val
 
@@ -212,7 +213,7 @@ def source_equivalence(ctx: Ctx, tables: dict, only_flags: set[str] | None = Non
             if d or ("Unrecognized option" in err) or (ref[0] is not None and err and not ref[2]):
                 reported += 1
                 src = name.split(":")[0]
-                ctx.report({"class": "source-inequivalent", "option": dest, "source": {"mypy.ini": "ini", "setup.cfg": "ini", "pyproject.toml": "toml"}[src]},
+                report(ctx, {"class": "source-inequivalent", "option": dest, "source": {"mypy.ini": "ini", "setup.cfg": "ini", "pyproject.toml": "toml"}[src]},
                            f"{flag} on the command line and `{sources[name][2].splitlines()[1]}` in {src} give different options: "
                            f"{dict(list(d.items())[:3])} {('messages: ' + err[:160]) if err else ''}",
                            {"kind": "equivalence", "flag": flag, "dest": dest, "cli": sources["cli"][0], "config_name": sources[name][1],
@@ -239,7 +240,7 @@ def source_equivalence(ctx: Ctx, tables: dict, only_flags: set[str] | None = Non
                 ctx.dist("equivalence_source", "inline")
                 d = diff_snap(want, got)
                 if d or errs:
-                    ctx.report({"class": "source-inequivalent", "option": dest, "source": "inline"},
+                    report(ctx, {"class": "source-inequivalent", "option": dest, "source": "inline"},
                                f"{s} on the command line and the inline comment `# mypy: {comment}` give different options: {d} {errs}",
                                {"kind": "equivalence-inline", "flag": s, "dest": dest, "comment": comment, "difference": d, "errors": errs})
     ctx.coverage["equivalence_failures"] = reported
@@ -267,7 +268,7 @@ def locality(ctx: Ctx, tables: dict) -> None:
             dg = diff_snap(bsnap, snap(o, {"per_module_options"}))
             do = diff_snap(bother, snap(o.clone_for_module("pk.b"), {"per_module_options"}))
             if dg or do:
-                ctx.report({"class": "per-module-leaks-global", "key": k},
+                report(ctx, {"class": "per-module-leaks-global", "key": k},
                            f"`{k} = {v}` in the section for module pk.a of {cfg} changes the global options / the options of pk.b: "
                            f"{dict(list((dg or do).items())[:4])}",
                            {"kind": "locality", "key": k, "value": v, "config_name": cfg, "config_text": text,
@@ -311,7 +312,7 @@ def precedence_pairs(ctx: Ctx, tables: dict) -> None:
                         ctx.case(("PREC", k, rungs[lo], rungs[hi], v, cfg))
                         ctx.dist("precedence_pair", f"{rungs[hi]} over {rungs[lo]}")
                         if got != v:
-                            ctx.report({"class": "precedence", "higher": rungs[hi], "lower": rungs[lo], "option": k},
+                            report(ctx, {"class": "precedence", "higher": rungs[hi], "lower": rungs[lo], "option": k},
                                        f"{k}: {rungs[hi]} says {v}, {rungs[lo]} says {not v}; module pk.a is checked with {got} ({cfg})",
                                        {"kind": "precedence-pair", "option": k, "higher": rungs[hi], "lower": rungs[lo], "value": v,
                                         "cli": cli, "config_name": cfg, "config_text": text,
@@ -361,7 +362,7 @@ def parsed_sections(ctx: Ctx) -> None:
                 ctx.case(("PARSED", combo, cfg, m))
                 ctx.dist("parsed_config", cfg)
                 if got != want:
-                    ctx.report({"class": "precedence", "module": m, "sections": list(combo), "source": cfg},
+                    report(ctx, {"class": "precedence", "module": m, "sections": list(combo), "source": cfg},
                                f"{cfg} with sections {list(combo)}: module {m} is checked with [{got}], documented precedence gives [{want}]",
                                {"kind": "parsed-sections", "config_name": cfg, "config_text": text, "module": m, "real": got, "documented": want})
                     return
@@ -500,7 +501,7 @@ def diagnostics_equivalence(ctx: Ctx, tables: dict, only_flags: set[str] | None 
             ctx.case(("DIAG", f["long"][0], src), nontrivial=True)
             ctx.dist("diagnostics_source", src)
             if out != res["cli"]:
-                ctx.report({"class": "diagnostics-differ", "option": f["dest"], "source": src},
+                report(ctx, {"class": "diagnostics-differ", "option": f["dest"], "source": src},
                            f"{f['long'][0]}: diagnostics under {src} differ from the command-line run",
                            {"kind": "diagnostics", "flag": f["long"][0], "dest": f["dest"], "const": f["const"], "source": src,
                             "cli_output": res["cli"][-1500:], "source_output": out[-1500:]})
@@ -525,7 +526,7 @@ def findings_on_diagnostics(ctx: Ctx) -> None:
     os.remove(os.path.join(d, "mypy.ini"))
     ctx.case(("FIND", "deprecated_calls_exclude"))
     if cli != ini:
-        ctx.report({"class": "source-inequivalent", "option": "deprecated_calls_exclude", "source": "ini"},
+        report(ctx, {"class": "source-inequivalent", "option": "deprecated_calls_exclude", "source": "ini"},
                    "--deprecated-calls-exclude pk.lib silences the deprecation error, `deprecated_calls_exclude = pk.lib` in "
                    "mypy.ini does not (the value is split into characters)",
                    {"kind": "finding-diagnostics", "files": files, "cli": ["--enable-error-code", "deprecated", "--deprecated-calls-exclude", "pk.lib"],
@@ -540,6 +541,6 @@ def findings_on_diagnostics(ctx: Ctx) -> None:
     os.remove(os.path.join(d, "mypy.ini"))
     ctx.case(("FIND", "per-module strict"))
     if "pk/b.py" in strict and "pk/b.py" not in single:
-        ctx.report({"class": "per-module-leaks-global", "key": "strict"},
+        report(ctx, {"class": "per-module-leaks-global", "key": "strict"},
                    "`strict = True` in [mypy-pk.a] makes pk/b.py strict as well",
                    {"kind": "finding-diagnostics", "files": files, "config_text": "[mypy]\n[mypy-pk.a]\nstrict = True\n", "output": strict})
